@@ -164,8 +164,14 @@ class C14(Prop):
             for j in range(nc):
                 single = np.asarray(cv.MT6c_D6(cols[j].copy(), c21), dtype=float).flatten()
                 dev = max(dev, float(np.max(np.abs(got[:, j] - single)) / (np.max(np.abs(single)) + 1e-300)))
+        # the stiffness as a float64 array used for two conversions in a row: it must not be altered, and the second result equals the first
+        carr = np.array(c21, dtype=np.float64)
+        first = np.asarray(cv.MT6c_D6(m.copy(), carr), dtype=float).flatten()
+        second = np.asarray(cv.MT6c_D6(m.copy(), carr), dtype=float).flatten()
+        reuse_dev = float(np.max(np.abs(second - first)) / (np.max(np.abs(first)) + 1e-300))
+        reuse_dev = max(reuse_dev, float(np.max(np.abs(carr - np.array(c21))) / (np.max(np.abs(np.array(c21))) + 1e-300)))
         return {'c21': c21, 'd6': d6, 'cvoigt': [float(x) for x in cv6.flatten()], 'cnorm': float(cv.c_norm(c21)),
-                'is_iso': bool(cv.is_isotropic_c(c21)), 'ncols': nc, 'batch_dev': dev}
+                'is_iso': bool(cv.is_isotropic_c(c21)), 'ncols': nc, 'batch_dev': dev, 'reuse_dev': reuse_dev}
 
     # ------------------------------------------------------------------ model
     def requests(self, case, impl):
@@ -355,6 +361,9 @@ class C14(Prop):
             if impl.get('batch_dev') is not None and impl['batch_dev'] > 1e-9:
                 out.append(('potency-batch', 'a batch of %d tensors converted to potency tensors differs from the column-by-column conversion by %r (relative)'
                             % (impl['ncols'], impl['batch_dev']), None))
+            if impl.get('reuse_dev') is not None and impl['reuse_dev'] > 1e-12:
+                out.append(('potency-reuse', 'two potency conversions in a row with the same stiffness array: the array or the second result changed by %r (relative)'
+                            % impl['reuse_dev'], None))
             if (case['iso'] is not None) != impl['is_iso'] and case['iso'] is not None:
                 out.append(('is-isotropic', 'isotropic stiffness not recognised as isotropic', None))
         return out[:3]
